@@ -636,6 +636,22 @@ def gen_conv_program(rng, path, nprocs=1, fmt=None):
             st, cnt = 0, n          # whole variable: no unwritten (unspecified) cells are read through conversions
             p.all('put vara c %s %s %s %d %d - - : %s' % (v.name, mt, rng.choice(['c', 't', 'v2', 'r2']), st, cnt, ' '.join(map(str, vals[:cnt]))))
             p.all('get var c %s %s c - - - -' % (v.name, NATIVE[v.xt]))
+            if rng.chance(1, 2):
+                # the same through ONE varn call of 2-3 segments listed out of file order (each segment takes its slice of the
+                # converted buffer: element sizes of memory and external type differ), blocking or nonblocking
+                cuts = sorted(set([0, n] + [rng.range(1, n - 1) for _ in range(rng.range(1, 2))]))
+                segs = [(cuts[i], cuts[i + 1] - cuts[i]) for i in range(len(cuts) - 1)]
+                order = rng.shuffle(list(range(len(segs))))
+                vv = []
+                for o in order:
+                    vv += vals[segs[o][0]:segs[o][0] + segs[o][1]]
+                sst = '|'.join(str(segs[o][0]) for o in order); sct = '|'.join(str(segs[o][1]) for o in order)
+                # (blocking only: where a nonblocking put reports NC_ERANGE - at post or at wait - is not part of the specification)
+                p.all('put varn c %s %s %s %s %s - - : %s' % (v.name, mt, rng.choice(['c', 'v2']), sst, sct, ' '.join(map(str, vv))))
+                p.all('get var c %s %s c - - - -' % (v.name, NATIVE[v.xt]))
+                mt3 = rng.choice(list(MRANGE) + ['float', 'double'])
+                p.all('get varn c %s %s %s %s %s - -' % (v.name, mt3, rng.choice(['c', 'v2']), sst, sct))
+                p.tags.add('conv-varn')
             # narrowing / widening reads of what is stored now
             for mt2 in rng.shuffle(list(MRANGE))[:3] + ['float', 'double']:
                 p.all('get vara c %s %s %s 0 %d - -' % (v.name, mt2, rng.choice(['c', 't', 'v2']), n))
